@@ -516,10 +516,18 @@ namespace Pistache::Rest
                 return Route::Status::Match;
         }
 
-        auto& r              = routes[req.method()];
         const auto sanitized = SegmentTreeNode::sanitizeResource(resource);
         const std::string_view path { sanitized.data(), sanitized.size() };
-        auto result = r.findRoute(path);
+
+        // route() runs concurrently on every worker thread: look the method's
+        // tree up without inserting one (operator[] would add an entry for a
+        // method that has no route yet, racing with the other workers)
+        using FindResult = std::tuple<std::shared_ptr<Route>, std::vector<TypedParam>,
+                                      std::vector<TypedParam>>;
+        const auto methodRoutes = routes.find(req.method());
+        auto result             = (methodRoutes != routes.end())
+                        ? methodRoutes->second.findRoute(path)
+                        : FindResult(nullptr, std::vector<TypedParam>(), std::vector<TypedParam>());
 
         auto route = std::get<0>(result);
         if (route != nullptr)
